@@ -18,6 +18,7 @@
 # *----------------------------------------------------------------------------*
 
 from abc import abstractmethod
+from contextlib import contextmanager
 from typing import Any, Dict, Iterator, Optional, Tuple, Union, cast
 from plinio.cost import CostSpec, CostFn
 import torch
@@ -88,6 +89,27 @@ class DNAS(nn.Module):
         :rtype: nn.Module
         """
         raise NotImplementedError("Trying to export optimized model on the base DNAS class")
+
+    @contextmanager
+    def _preserve_state(self):
+        """Context manager used by `export()`: re-tracing the inner model switches it (and all
+        its sub-modules) to eval mode and runs a forward pass for shape propagation, which
+        re-samples the architectural coefficients held by the NAS layers. On exit, the training
+        mode of every module and every buffer / tensor attribute found on entry are put back,
+        so that exporting does not alter the NAS model."""
+        modes = [(m, m.training) for m in self.modules()]
+        tensors = []
+        for m in self.modules():
+            for k, v in list(m._buffers.items()) + list(vars(m).items()):
+                if isinstance(v, torch.Tensor) and not isinstance(v, nn.Parameter):
+                    tensors.append((m, k, v))
+        try:
+            yield
+        finally:
+            for m, mode in modes:
+                m.training = mode
+            for m, k, v in tensors:
+                setattr(m, k, v)
 
     @abstractmethod
     def summary(self) -> Dict[str, Dict[str, Any]]:
